@@ -31,8 +31,10 @@ type Chan[T any] struct{ c chanCore }
 func NewChan[T any](n int) *Chan[T] {
 	c := &Chan[T]{}
 	c.c.cap = n
-	S.nextObj++
-	c.c.id = S.nextObj
+	if S != nil { // (a channel made at package initialisation is made again when an execution starts)
+		S.nextObj++
+		c.c.id = S.nextObj
+	}
 	return c
 }
 
